@@ -185,6 +185,10 @@ var Ops = []Op{
 	repl(kEnt, "value-reversed", replaceValue("9:00 - 8:59")),
 	repl(kEnt, "value-reversed-shift", replaceValue("0:00> - 23:59")),
 	repl(kEnt, "value-reversed-12h", replaceValue("12:00pm - 12:00am")),
+	repl(kEnt, "value-reversed-both-yesterday", replaceValue("<23:00 - <22:00")),
+	repl(kEnt, "value-reversed-both-tomorrow", replaceValue("2:00> - 1:00>")),
+	repl(kEnt, "value-reversed-24-00", replaceValue("0:30> - 24:00")),
+	repl(kEnt, "value-reversed-12h-shifted", replaceValue("1:00pm> - 12:59pm>")),
 	repl(kEnt, "value-equal-times", replaceValue("9:00 - 9:00")), // rule-preserving
 	repl(kEnt, "value-placeholder-shifted-gt", replaceValue("8:00 - ?>")),
 	repl(kEnt, "value-placeholder-shifted-lt", replaceValue("8:00 - <?")),
